@@ -419,9 +419,12 @@ def harnesses(tier, seed):
     t = 420 if tier == "quick" else 900
     hs = []
     insts = _instances(tier, seed)
+    # the deterministic encoding-hazard families are C03's business only (they add nothing to the
+    # "no byte outside the window" clause C06 takes from the sampled instances)
+    hazard = {_name(w, i, live) for w, i, live in _byte_hazard() + _addr_hazard() + _disp_hazard()} - {_name(w, i, live) for w, i, live in MUST}
     for n, w, i, live in insts:
         hs.append({"name": MOD + n, "function": "basejit::CodeGen::emit_program [%s, live=0x%x] + the asm.rs emitters it selects" % (_instr(i, w), live),
-                   "clause": CLAUSE, "properties": ["C03", "C06"],
+                   "clause": CLAUSE, "properties": ["C03"] if n in hazard else ["C03", "C06"],
                    "bounded_by": "operands enumerated (%d instances in the %s tier); window of 41 cells, 16 stack slots" % (len(insts), tier),
                    "complete_over": "all register / stack / tape / context contents and flags (symbolic)", "timeout": t,
                    # the contract function is shared by all destinations / tiers: the other arm is dead
